@@ -363,6 +363,12 @@ func c09Histories(c *run.Ctx, s *model.Schema, sdl string) int {
 								c.Violation("c09-history", map[string]interface{}{"backend": bk, "document": text, "diag": "valid document rejected: " + perr.Error()})
 								continue
 							}
+							if n%3 == 0 {
+								// the application attaches a request context to the parsed request before it resolves it (the
+								// documented way to hand per-request data to resolvers): directives stay where they are
+								exe.SetContextRecursive(fmt.Sprintf("ctx-%d", n))
+								c.Count("histories_with_a_context_set_on_the_parsed_request", 1)
+							}
 							// every assignment: 0 = given false, 1 = given true, 2 = omitted (only with a default)
 							type call struct {
 								op   string
@@ -685,7 +691,7 @@ func c09Subscription(c *run.Ctx) int {
 		{`@include(if: $b) @skip(if: $a)`, true, `($a: Boolean = false, $b: Boolean = true)`, map[string]interface{}{"b": true}},
 		{`@include(if: $b) @skip(if: $a)`, false, `($a: Boolean = false, $b: Boolean = true)`, map[string]interface{}{"b": false}}}
 	for li, lt := range lits {
-		for form := 0; form < 2; form++ {
+		for form := 0; form < 3; form++ {
 			var clock int64
 			lg := &subLog{cleanups: map[int][]int64{}, clock: &clock}
 			ro := &subRootObj{log: lg}
@@ -698,6 +704,10 @@ func c09Subscription(c *run.Ctx) int {
 			text := "subscription S" + lt.head + " { listen(topic: \"a\") { id ...F " + lt.dir + " ... on Event " + lt.dir + " { tag } n " + lt.dir + " } }\nfragment F on Event { inner { v } }"
 			if form == 1 {
 				text = "fragment F on Event { inner { v } }\nsubscription S" + lt.head + " { listen(topic: \"a\") { ... on Event { ...F " + lt.dir + " } id n " + lt.dir + " ... " + lt.dir + " { tag } } }"
+			}
+			if form == 2 {
+				// the condition is written on the SPREAD only (a variable condition then appears on no field and on no inline fragment)
+				text = "subscription S" + lt.head + " { listen(topic: \"a\") { id ...F " + lt.dir + " } }\nfragment F on Event { inner { v } n tag }"
 			}
 			var res map[string]interface{}
 			pv, _ := run.Protect(func() {
